@@ -210,6 +210,7 @@ func runC38(rc *RC) {
 		return
 	}
 	name := "C38/" + worldKindNames[kind]
+	rc.Phase(name)
 	ids := universe()
 	full := obsOpts{}
 	var kept []*keptValue
@@ -290,5 +291,5 @@ func runC38(rc *RC) {
 			kept = append(kept, &keptValue{f: val, label: fmt.Sprintf("the value passed to AddFeature at step %d (%s)", i, o.Spec.ID), inWorld: true})
 		}
 	}
-	rc.Rec.Nontrivial = mutations >= 2 && len(kindsApplied) >= 2
+	rc.SetNontrivial(mutations >= 2 && len(kindsApplied) >= 2)
 }
